@@ -273,6 +273,16 @@ Theorem C08_snapshot_copy_refuted :
 Proof. split; [exact OBP.snapshot_copy_not_reproducible | exact OBP.snapshot_copy_does_not_consume]. Qed.
 Print Assumptions C08_snapshot_copy_refuted.
 
+(** The rng property setter of a selection protocol re-points the protocol's own generator only (finding
+    C08-selprot-rng-setter-stale-optimiser): the default optimiser built by the constructor keeps the constructor's generator, so with
+    rng = None at construction and a generator supplied through the setter the global numpy stream is still advanced; a setter that
+    re-points the optimiser too leaves both global streams untouched. *)
+Theorem C08_setter_stale_optimiser_refuted : exists (e : OB.env) (w : world Z),
+  snd (OB.run_obj 0%Z OBP.setter_stale_prog e w) LNp <> w LNp /\
+  snd (OB.run_obj 0%Z OBP.setter_repointing_prog e w) LNp = w LNp /\ snd (OB.run_obj 0%Z OBP.setter_repointing_prog e w) LPy = w LPy.
+Proof. exact OBP.setter_stale_part_not_isolated. Qed.
+Print Assumptions C08_setter_stale_optimiser_refuted.
+
 (** No function of the current source snapshots a generator (copy.copy / copy.deepcopy / pickle applied to rng, random_state,
     <obj>.rng, <obj>._rng, global_prng; get_state / __getstate__ / __reduce__ / bit_generator.state read from one): every node of the
     regenerated table, no exception; and the mask the regression had is not explicit-only. *)
